@@ -826,6 +826,67 @@ def r11q(an: Analysis, rep, rule="R11.Q"):
         rep.add(rule, "every operand class that names a table entry carries a position override", True, "code_data/__init__.py", "no operand class without _index_override indexes a table", nontrivial=False)
 
 
+def r11o(an: Analysis, rep, rule="R11.O"):
+    """The decoder names an instruction by `dis.opname[opcode]`, which has an entry ('<7>') for every byte; the encoder finds the opcode again through
+    `dis.opmap[name]`, which only knows defined opcodes.  A byte the interpreter does not define (hand-altered co_code, e.g. in dead code) must therefore be
+    refused by from_code: otherwise it returns data that to_code() cannot encode (KeyError) - neither an error from from_code nor a faithful round trip."""
+    from sa.feval import FevalError, PureEval
+    rep.rule(rule, "an opcode byte the interpreter does not define is refused by from_code", 1)
+    site = None
+    for f in an.closure("from_code"):
+        for c in ast.walk(f.node):
+            if isinstance(c, ast.Call) and isinstance(c.func, ast.Name) and c.func.id == "Instruction":
+                kw = {k.arg: k.value for k in c.keywords}
+                if "name" in kw and isinstance(kw["name"], ast.Subscript) and (attr_chain(kw["name"].value) or "").split(".")[-1] == "opname" and isinstance(kw["name"].slice, ast.Name):
+                    site = (f, c, kw["name"].slice.id)
+    if site is None:
+        raise AnalysisError("how the decoder names an instruction (Instruction(name=dis.opname[<opcode>])) is not recognised")
+    f, call, opv = site
+    enc_lookup = any(isinstance(x, ast.Subscript) and (attr_chain(x.value) or "").split(".")[-1] == "opmap" for g in an.closure("to_code") for x in ast.walk(g.node))
+    if not enc_lookup:
+        raise AnalysisError("how the encoder finds the opcode of an instruction name (dis.opmap[name]) is not recognised")
+    from .encode_model import parent_map
+    pm = parent_map(f.module)
+    loop = call
+    while loop is not f.node and not isinstance(loop, ast.For):
+        loop = pm[id(loop)]
+    guards = [st for st in ast.walk(loop) if isinstance(st, ast.If) and any(isinstance(b, ast.Raise) for b in st.body)
+              and {n.id for n in ast.walk(st.test) if isinstance(n, ast.Name)} <= {opv, "dis", "opcode", "HAVE_ARGUMENT", "len", "set", "frozenset"} | set(f.module.assigns)] if isinstance(loop, ast.For) else []
+    bad = []
+    for V in VERSIONS:
+        ref = reference(V)
+        opmap = dict(ref["opmap"])
+        opname = [f"<{i}>" for i in range(256)]
+        for nm, b in opmap.items():
+            opname[b] = nm
+        undefined = [b for b in range(256) if opname[b] not in opmap]
+        disenv = {"opmap": opmap, "opname": opname, "HAVE_ARGUMENT": ref["HAVE_ARGUMENT"], "EXTENDED_ARG": ref["EXTENDED_ARG"]}
+        for k in ref:
+            if k.startswith("has"):
+                disenv[k] = list(ref[k])
+        pe = PureEval(lambda name: None, extra={"dis": disenv, "opcode": disenv, "HAVE_ARGUMENT": ref["HAVE_ARGUMENT"]})
+        pe.module_assigns = f.module.assigns
+        pe.MAX_ITER = 512
+
+        def refused(b):
+            for g in guards:
+                try:
+                    if pe.ev(g.test, {opv: b}):
+                        return True
+                except (FevalError, KeyError, TypeError, IndexError):
+                    continue
+            return False
+        missed = [b for b in undefined if not refused(b)]
+        spurious = [opname[b] for b in sorted(opmap.values()) if refused(b)]
+        if missed or spurious:
+            bad.append((vname(V), missed[:3], len(missed), spurious[:3]))
+    rep.add(rule, f"{f.qual}::undefined opcode bytes are refused", not bad, loc(f.module, call),
+            f"every byte without an opcode on 3.7 - 3.10 makes from_code raise, no defined opcode does" if not bad else
+            (f"[{bad[0][0]}] bytes {bad[0][1]} ({bad[0][2]} in all) have no opcode, `dis.opname` names them '<{bad[0][1][0]}>' and the decoder stores that name; `dis.opmap` has no such key, so "
+             f"to_code() of the data from_code returned raises KeyError('<{bad[0][1][0]}>') - from_code neither refused the code object nor gave data that can be encoded" if bad[0][1] else
+             f"[{bad[0][0]}] the defined opcodes {bad[0][3]} are refused"))
+
+
 def r117(an: Analysis, rep):
     """The decoder rejects argument names on non-function code through the truthiness of Args: that is only a guard if len(args) counts every kind."""
     it, _ = an.interp("from_code")
@@ -955,6 +1016,7 @@ def run(an: Analysis, rep):
     rep.run(r119, an, rep)
     rep.run(width_rule, an, rep)
     rep.run(r11q, an, rep)
+    rep.run(r11o, an, rep)
     from . import c10, c13
     from .common import SharedRules as _SR
     rep.run(c10.r106_progress, an, rep, "R11.H")
